@@ -3,23 +3,24 @@ CONSTANTS
   Guids = {"g1", "g2"}
   RuleIds = {"r1"}
   Contents = {"c1"}
-  Versions = {"2.0"}
+  Versions = {"1.0"}
   ModeOf <- MCModeOf
   RulesKey = "item"
   IdsIdentifyContent = TRUE
   IncOf <- MCIncOf
-  KeepHigherIncarnation = TRUE
+  KeepHigherIncarnation = FALSE
   ReuseUnattested = FALSE
-  ReadBackFailOpen = FALSE
+  ReadBackFailOpen = TRUE
   StateEarly = FALSE
   InitScenarios = {"fresh"}
-  InitDocs <- DocsEmptyId
-  MaxReconf = 2
-  MaxFaults = 0
+  InitDocs <- DocsV1
+  MaxReconf = 0
+  MaxFaults = 2
   MaxCrash = 0
-  MaxDamage = 0
+  MaxDamage = 1
   MaxNotify = 0
-  FsFaults = FALSE
+  FsFaults = TRUE
   AcquireMayRepeat = TRUE
-INVARIANTS Converged
+INVARIANTS TypeOK LatchedIsRecoverable NoCorruptFinalName AttestOnlyAfterStoreAndReadBack RestartUsesLocal
+PROPERTIES AttestStep RenameOnlyComplete
 CHECK_DEADLOCK FALSE
